@@ -17,7 +17,7 @@ false one with probability <= deg/p per point.  Modelled algebra:
 A float evaluator over the same DAG gives human-readable residuals for diagnostics only.
 """
 from __future__ import annotations
-import cmath, math, random
+import cmath, math, os, random, time, zlib
 from fractions import Fraction
 from .report import AnalysisError
 
@@ -705,8 +705,8 @@ class Point:
             if v is None:
                 r = self.rng
                 if getattr(self, '_wide', False):
-                    orng = self.__dict__.setdefault('_orng', random.Random(hash((name, id(self))) & 0xffffffff))
-                    orng = random.Random((hash(name) ^ self.__dict__.setdefault('_oseed', r.randrange(1 << 30))) & 0xffffffff)
+                    # (crc32, not hash(): str hashes differ from process to process, and a check must give the same verdict on every run)
+                    orng = random.Random((zlib.crc32(str(name).encode()) ^ self.__dict__.setdefault('_oseed', r.randrange(1 << 30))) & 0xffffffff)
                     if name == 'pi': v = complex(math.pi)
                     elif name == 'float_eps': v = complex(2.220446049250313e-16)
                     elif name.startswith('float_lognat'): v = complex(709.0)
@@ -715,6 +715,8 @@ class Point:
                         # are entered at a fair share of the sample points and not once in a blue moon
                         u_ = orng.random()
                         mag = 10 ** (orng.uniform(-3, 3) if u_ < 0.4 else (orng.uniform(-20, -3) if u_ < 0.7 else orng.uniform(3, 20)))
+                        if name in getattr(self, 'omag', ()):
+                            mag = self.omag[name]          # a magnitude placed next to a threshold by Decider.directed (threshold-directed sampling)
                         if kind == 'pos':
                             sgn = 1.0
                         else:
@@ -772,6 +774,9 @@ def memo_get(pt, n):
 
 
 # ------------------------------------------------------------------ deciding identities
+DIRECTED_STATS = {'seconds': 0.0, 'identities': 0, 'evals': 0, 'scans': 0}
+
+
 class Decider:
     """Decides E == 0 at K sample points; `positive` = nodes that must sample as quadratic residues."""
 
@@ -887,7 +892,171 @@ class Decider:
                 if v != (0, 0):
                     return False
                 vals.append(v)
+            if not self._directed_check(e):
+                return False
         return True
+
+    # ---- threshold-directed sampling -------------------------------------------------------------------------------------------------------------------------
+    # A comparison nobody decides splits the domain.  Random real valuations enter a narrow side of it (|x| <= 2.2e-16, w * eta / mu <= eps, T > 2303) rarely or never, so an
+    # identity that fails only there is missed.  For every free order comparison in e and every atom it depends on (a "lever"), the lever's magnitude is swept over
+    # DIRECTED_DECADES at one sample point, the magnitudes where the comparison changes its truth value are located by bisection, and e is evaluated at fresh points whose real
+    # valuation places the lever just below, just above and between those thresholds (all other atoms as drawn; field values as drawn).  A directed point is an ordinary
+    # sample point: it lies in the declared region (checked) and decides all its comparisons on one real valuation, so a true identity of the modelled algebra is never flagged.
+    DIRECTED_DECADES = (-30, 30)
+    DIRECTED_BUDGET = 36            # directed evaluations of e per identity
+
+    def _free_cmp_nodes(self, e):
+        cache = self.__dict__.setdefault('_free_cmp_cache', {})
+        if e.uid in cache: return cache[e.uid]
+        seen = set(); stack = [e]; out = []
+        while stack:
+            x = stack.pop()
+            if x.uid in seen: continue
+            seen.add(x.uid)
+            if x.op == 'cmp' and x.val in ('<', '<=', '>', '>='):
+                decided = None
+                if self._mask_hook is not None:
+                    try: decided = self._mask_hook(x, None)
+                    except Exception: decided = None
+                if decided is None: out.append(x)
+            stack.extend(x.args)
+            if len(seen) > 20000: break
+        out.sort(key=lambda n_: n_.uid)
+        cache[e.uid] = out
+        return out
+
+    def _lever_atoms(self, n):
+        seen = set(); stack = [n]; out = []
+        while stack:
+            x = stack.pop()
+            if x.uid in seen: continue
+            seen.add(x.uid)
+            if x.op == 'atom':
+                nm = x.val[0]
+                if nm not in self.pins and nm != 'pi' and not str(nm).startswith('float_') and x.val[1] != 'complex':
+                    out.append(nm)
+            stack.extend(x.args)
+            if len(seen) > 4000: break
+        return sorted(set(out), key=str)
+
+    def _blank_point(self):
+        self._extra = getattr(self, '_extra', 0) + 1
+        pt = Point(self.seed * 1000003 + 500000 + self._extra, pins=self.pins, mask_hook=getattr(self, '_mask_hook', None))
+        return pt
+
+    def _admit(self, pt):
+        """the region / non-vanishing declarations of this decider, on a point that is not (yet) one of its standing points; True when the point's real valuation lies in the region"""
+        try:
+            for pn in self.positive:
+                v = pt.ev(pn)
+                if v[1] != 0 or legendre(v[0]) != 1:
+                    return False
+            if self.positive:
+                self._align(pt)
+            for nz in self.nonzero:
+                if pt.ev(nz) == (0, 0):
+                    return False
+        except Resample:
+            return False
+        return getattr(pt, 'order_ok', True)
+
+    @staticmethod
+    def _truth(pt, c):
+        fa = pt.order_eval(c.args[0]); fb = pt.order_eval(c.args[1])
+        if fa != fa or fb != fb or abs(fa.imag) > 1e-300 or abs(fb.imag) > 1e-300 or abs(fa.real) == float('inf') or abs(fb.real) == float('inf') or fa.real == fb.real:
+            return None
+        d_ = fa.real - fb.real
+        return {'<': d_ < 0, '<=': d_ <= 0, '>': d_ > 0, '>=': d_ >= 0}[c.val]
+
+    @staticmethod
+    def _set_lever(pt, lever, mag):
+        if not hasattr(pt, 'omemo'):
+            pt.omemo = {}; pt.oatom = {}
+        pt.omag = {lever: mag}
+        pt.omemo.clear(); pt.oatom.pop(lever, None)
+
+    def _scan(self, base, c, lever, lo, hi):
+        """magnitudes of `lever` (in decades lo..hi) at which comparison c changes its truth value at base's real valuation: list of (just on one side, just on the other)"""
+        grid = [10.0 ** (k / 2.0) for k in range(2 * lo, 2 * hi + 1)]
+        known = []
+        for m in grid:
+            self._set_lever(base, lever, m)
+            t_ = self._truth(base, c)
+            if t_ is not None: known.append((m, t_))          # (a magnitude exactly on a threshold has no truth value)
+        cuts = []
+        for i in range(len(known) - 1):
+            if known[i][1] == known[i + 1][1]: continue
+            a_, b_ = known[i][0], known[i + 1][0]; ta = known[i][1]
+            for _ in range(24):
+                mid = math.sqrt(a_ * b_)
+                self._set_lever(base, lever, mid)
+                tm = self._truth(base, c)
+                if tm is None:
+                    mid *= 1.0 + 1e-9
+                    self._set_lever(base, lever, mid)
+                    tm = self._truth(base, c)
+                    if tm is None: break
+                if tm == ta: a_ = mid
+                else: b_ = mid
+            cuts.append((a_, b_))
+        return cuts
+
+    def _directed_check(self, e):
+        if getattr(self, 'no_directed', False) or os.environ.get('VERIF_NO_DIRECTED'):
+            return True
+        done = self.__dict__.setdefault('_directed_done', {})
+        if e.uid in done: return done[e.uid]
+        t0_ = time.perf_counter()
+        try:
+            return self._directed_check1(e, done)
+        finally:
+            DIRECTED_STATS['seconds'] += time.perf_counter() - t0_; DIRECTED_STATS['identities'] += 1
+
+    def _directed_check1(self, e, done):
+        cmps = self._free_cmp_nodes(e)
+        budget = self.DIRECTED_BUDGET; verdict = True
+        self.directed_evals = getattr(self, 'directed_evals', 0)
+        lo, hi = self.DIRECTED_DECADES
+        for c in cmps[:8]:
+            if budget <= 0 or not verdict: break
+            for lever in self._lever_atoms(c)[:3]:
+                if budget <= 0 or not verdict: break
+                base = None; cuts = []
+                for _attempt in range(4):          # an atom of either sign flips a one-sided comparison only on one sign: try a few base points
+                    base = None
+                    for _ in range(6):
+                        cand = self._blank_point()
+                        if self._admit(cand):
+                            base = cand; break
+                    if base is None: break
+                    DIRECTED_STATS['scans'] += 1
+                    try:
+                        cuts = self._scan(base, c, lever, lo, hi)
+                    except (AnalysisError, OverflowError, ValueError, ZeroDivisionError, RecursionError):
+                        cuts = []
+                    if cuts: break
+                if not cuts: continue
+                mags = []
+                for i, (a_, b_) in enumerate(cuts[:3]):
+                    mags += [a_, b_]
+                    if i + 1 < len(cuts): mags.append(math.sqrt(b_ * cuts[i + 1][0]))
+                for m in mags:
+                    if budget <= 0: break
+                    pt = Point(base.rng.randrange(1 << 60), pins=self.pins, mask_hook=getattr(self, '_mask_hook', None))
+                    pt.atomv = dict(base.atomv); pt.expbase = dict(base.expbase)
+                    pt._oseed = base.__dict__.get('_oseed', 0)
+                    pt.omemo = {}; pt.oatom = {}; pt.omag = {lever: m}
+                    if not self._admit(pt): continue
+                    try:
+                        v = pt.ev(e)
+                    except Resample:
+                        continue
+                    budget -= 1; self.directed_evals += 1; DIRECTED_STATS['evals'] += 1
+                    if v != (0, 0):
+                        self.directed_witness = f'{lever} ~ {m:.3g} (next to a threshold of `{show(c)[:120]}`)'
+                        verdict = False; break
+        done[e.uid] = verdict
+        return verdict
 
     def _free_masks(self, e):
         """number of distinct comparison nodes in e that no mask hook decides (they are sampled through the Legendre character)"""
@@ -937,7 +1106,8 @@ class Decider:
 
     def describe(self, a, b):
         r, s = self.residual(a, b)
-        return f'float residual {r:.6g} on scale {s:.6g}'
+        w = getattr(self, 'directed_witness', None)
+        return f'float residual {r:.6g} on scale {s:.6g}' + (f'; fails at a point placed by threshold-directed sampling: {w}' if w else '')
 
 
 # ------------------------------------------------------------------ differentiation
